@@ -8,12 +8,13 @@
      (3) hence for every subset of the waits at which the host restarts, every call of a history has the same
          visible result as when the session is never re-read.
 
-   The engine enters through two facts about Engine.start / Engine.resume_session (a sprint that ends normally
-   leaves no pushed flow behind, and every run's parent was created before it).  In the first part of this file
-   they are Section hypotheses; EngineFacts at the end discharges them. *)
+   The engine enters through an invariant of Engine.start / Engine.resume_session that implies: a sprint that ends
+   normally leaves no pushed flow behind, every run's parent was created before it, the trigger is never replaced.
+   In Section Bisim the invariant is abstract; it is instantiated with EngineInv.post_inv (proofs/EngineInv.v, by the
+   owner of Engine.v) at the end of the file. *)
 
 From Coq Require Import List NArith ZArith Bool Lia Arith.
-From Verif Require Import model.Lang model.Engine model.Persist.
+From Verif Require Import model.Lang model.Engine model.Persist proofs.EngineInv.
 Import ListNotations.
 
 (* ---- well-formedness of the run list ------------------------------------------------------------------------ *)
@@ -275,25 +276,7 @@ Proof.
   destruct (after_call lv1 _ _) as [lv2|]; cbn [map]; [rewrite IH|]; reflexivity.
 Qed.
 
-(* restart pattern [bs] applied to the resumes [rs] (a pattern that is too short is continued with "keep alive") *)
-Fixpoint with_pattern (bs : list bool) (rs : list resume) : list (bool * resume) :=
-  match rs with
-  | [] => []
-  | r :: rs' => match bs with
-                | [] => (false, r) :: with_pattern [] rs'
-                | b :: bs' => (b, r) :: with_pattern bs' rs'
-                end
-  end.
-
-Definition never (rs : list resume) : list (bool * resume) := with_pattern [] rs.
-
 (* ---- bisimulation ----------------------------------------------------------------------------------------------------------- *)
-
-(* two Go sessions that may differ only in their per-call fields *)
-Definition sim (lv1 lv2 : live) : Prop :=
-  lv_core lv1 = lv_core lv2 /\ lv_batch_trigger lv1 = lv_batch_trigger lv2 /\
-  persistable (lv_core lv1) /\
-  tr_ok (s_trigger (lv_core lv1)) (lv_tr lv1) /\ tr_ok (s_trigger (lv_core lv2)) (lv_tr lv2).
 
 Lemma persist_ignores_transient : forall c b t1 t2,
   persist {| lv_core := c; lv_batch_trigger := b; lv_tr := t1 |} = persist {| lv_core := c; lv_batch_trigger := b; lv_tr := t2 |}.
@@ -306,21 +289,28 @@ Section Bisim.
   Variable a : assets.
   Variable tmo : text.
 
-  (* the two facts about the engine (discharged below from Engine.v) *)
-  Hypothesis start_persistable : forall t f x, start a t f = ROk x -> persistable (session_ x).
-  Hypothesis resume_persistable : forall s r x,
-    persistable s -> resume_session a s r tmo = Resumed (ROk x) -> persistable (session_ x).
+  (* an invariant of the engine's session states at the end of a sprint *)
+  Variable Inv : session -> Prop.
+  Hypothesis inv_persistable : forall s, Inv s -> persistable s.
+  Hypothesis start_inv : forall t f x, start a t f = ROk x -> Inv (session_ x).
+  Hypothesis resume_inv : forall s r x, Inv s -> resume_session a s r tmo = Resumed (ROk x) -> Inv (session_ x).
 
   (* the trigger of a session never changes *)
   Hypothesis start_trigger : forall t f x, start a t f = ROk x -> s_trigger (session_ x) = t.
   Hypothesis resume_trigger : forall s r x,
-    resume_session a s r tmo = Resumed (ROk x) -> s_trigger (session_ x) = s_trigger s.
+    Inv s -> resume_session a s r tmo = Resumed (ROk x) -> s_trigger (session_ x) = s_trigger s.
+
+  (* two Go sessions that may differ only in their per-call fields *)
+  Definition sim (lv1 lv2 : live) : Prop :=
+    lv_core lv1 = lv_core lv2 /\ lv_batch_trigger lv1 = lv_batch_trigger lv2 /\
+    Inv (lv_core lv1) /\
+    tr_ok (s_trigger (lv_core lv1)) (lv_tr lv1) /\ tr_ok (s_trigger (lv_core lv2)) (lv_tr lv2).
 
   Lemma sim_restore : forall lv,
-    persistable (lv_core lv) -> tr_ok (s_trigger (lv_core lv)) (lv_tr lv) ->
+    Inv (lv_core lv) -> tr_ok (s_trigger (lv_core lv)) (lv_tr lv) ->
     exists lv', restore (persist lv) = Restored lv' /\ sim lv lv'.
   Proof.
-    intros lv [Hpu Hpp] Htr. exists (reread lv). split.
+    intros lv Hi Htr. destruct (inv_persistable _ Hi) as [Hpu Hpp]. exists (reread lv). split.
     - apply restore_persist_known. exact Hpp.
     - unfold sim, reread. cbn [lv_core lv_batch_trigger lv_tr].
       assert (set_pushed (lv_core lv) None = lv_core lv) as E.
@@ -348,12 +338,12 @@ Section Bisim.
     split; [apply context_rederived; assumption|].
     destruct (resume_session a c1 r tmo) as [code|[x|x| |]] eqn:E; cbn [after_call]; try exact I.
     - (* rejected: the session is untouched *)
-      unfold sim. cbn [lv_core lv_batch_trigger lv_tr]. repeat split; try assumption; try (apply Hp);
+      unfold sim. cbn [lv_core lv_batch_trigger lv_tr]. repeat split; try assumption;
       apply tr_ok_resume; assumption.
     - (* a sprint ran *)
       unfold sim. cbn [lv_core lv_batch_trigger lv_tr].
-      pose proof (resume_persistable _ _ _ Hp E) as Hp'. pose proof (resume_trigger _ _ _ E) as Htg.
-      repeat split; try (apply Hp'); rewrite Htg; apply tr_ok_resume; assumption.
+      pose proof (resume_inv _ _ _ Hp E) as Hp'. pose proof (resume_trigger _ _ _ Hp E) as Htg.
+      repeat split; try exact Hp'; rewrite Htg; apply tr_ok_resume; assumption.
   Qed.
 
   (* (3) any two restart patterns over the same resumes give the same visible results *)
@@ -370,18 +360,18 @@ Section Bisim.
       assert (exists m1, (if b1 then restore (persist lv1) else Restored lv1) = Restored m1 /\ sim lv1 m1) as [m1 [E1 S1]].
       { destruct b1.
         - apply sim_restore; assumption.
-        - exists lv1. split; [reflexivity|]. unfold sim. repeat split; try assumption; apply Hp. }
+        - exists lv1. split; [reflexivity|]. unfold sim. repeat split; assumption. }
       assert (exists m2, (if b2 then restore (persist lv2) else Restored lv2) = Restored m2 /\ sim lv2 m2) as [m2 [E2 S2]].
       { destruct b2.
         - apply sim_restore; [rewrite <- Hc; exact Hp | exact Ht2].
-        - exists lv2. split; [reflexivity|]. unfold sim. rewrite <- Hc. repeat split; try assumption; try apply Hp.
-          rewrite Hc. exact Ht2. rewrite Hc. exact Ht2. }
+        - exists lv2. split; [reflexivity|]. unfold sim. rewrite <- Hc. repeat split; try assumption;
+          rewrite Hc; exact Ht2. }
       rewrite E1, E2.
       assert (sim m1 m2) as S12.
       { destruct S1 as [c1 [b1' [p1 [t1 t1']]]]. destruct S2 as [c2 [b2' [p2 [t2 t2']]]].
-        unfold sim. rewrite <- c1, <- b1', <- c2, <- b2'. repeat split; try assumption; try apply Hp.
+        unfold sim. rewrite <- c1, <- b1', <- c2, <- b2'. repeat split; try assumption.
         - rewrite c1. exact t1'.
-        - rewrite <- Hc. rewrite Hc. rewrite c2. exact t2'. }
+        - rewrite c2. exact t2'. }
       pose proof (sim_step m1 m2 r S12) as Hst.
       destruct (live_resume a m1 r tmo) as [res1 tr1] eqn:L1. destruct (live_resume a m2 r tmo) as [res2 tr2] eqn:L2.
       destruct Hst as [Hres [Hout [Hctx Hnext]]].
@@ -397,41 +387,96 @@ Section Bisim.
     intros t f batch rs bs. unfold run_history_v, live_start, never.
     destruct (start a t f) as [x|x| |] eqn:E; try reflexivity.
     f_equal. apply sim_history.
-    pose proof (start_persistable _ _ _ E) as Hp.
+    pose proof (start_inv _ _ _ E) as Hp.
     pose proof (start_trigger _ _ _ E) as Htg.
-    unfold sim. cbn [lv_core lv_batch_trigger lv_tr]. repeat split; try apply Hp; rewrite Htg; apply tr_ok_start.
+    unfold sim. cbn [lv_core lv_batch_trigger lv_tr]. repeat split; try exact Hp; rewrite Htg; apply tr_ok_start.
   Qed.
 End Bisim.
 
-(* ---- closed forms for props/C02.v ---------------------------------------------------------------------------------------------- *)
+(* ---- the engine invariant (proofs/EngineInv.v) --------------------------------------------------------------------------------- *)
 
-(* the facts about the engine the bisimulation rests on *)
-Definition engine_keeps_persistable (a : assets) (tmo : text) : Prop :=
-  (forall t f x, start a t f = ROk x -> persistable (session_ x)) /\
-  (forall s r x, persistable s -> resume_session a s r tmo = Resumed (ROk x) -> persistable (session_ x)) /\
-  (forall t f x, start a t f = ROk x -> s_trigger (session_ x) = t) /\
-  (forall s r x, resume_session a s r tmo = Resumed (ROk x) -> s_trigger (session_ x) = s_trigger s).
-
-Lemma any_restart_subset_under : forall a tmo, engine_keeps_persistable a tmo ->
-  forall t f batch rs bs,
-    run_history_v a tmo t f batch (with_pattern bs rs) = run_history_v a tmo t f batch (never rs).
+Lemma post_inv_persistable : forall s, post_inv s -> persistable s.
 Proof.
-  intros a tmo [H1 [H2 [H3 H4]]]. apply any_restart_subset; assumption.
+  intros s [Hc [Hp _]]. split; [exact Hp|].
+  intros j r p Hn Hpar. cbn.
+  apply (ci_wf _ Hc j (shp_of r) p).
+  - rewrite nth_error_shape, Hn. reflexivity.
+  - exact Hpar.
 Qed.
 
-Lemma resume_bisim_under : forall a tmo, engine_keeps_persistable a tmo ->
-  forall lv r, persistable (lv_core lv) -> tr_ok (s_trigger (lv_core lv)) (lv_tr lv) ->
+Lemma start_post_inv : forall a t f x, start a t f = ROk x -> post_inv (session_ x).
+Proof. intros a t f x H. exact (proj1 (start_post _ _ _ _ H)). Qed.
+
+Lemma start_post_trigger : forall a t f x, start a t f = ROk x -> s_trigger (session_ x) = t.
+Proof. intros a t f x H. exact (proj1 (proj2 (start_post _ _ _ _ H))). Qed.
+
+Lemma resume_post_inv : forall a tmo s r x, post_inv s -> resume_session a s r tmo = Resumed (ROk x) -> post_inv (session_ x).
+Proof. intros a tmo s r x Hp H. exact (proj1 (resume_post _ _ _ _ _ Hp H)). Qed.
+
+Lemma resume_post_trigger : forall a tmo s r x,
+  post_inv s -> resume_session a s r tmo = Resumed (ROk x) -> s_trigger (session_ x) = s_trigger s.
+Proof. intros a tmo s r x Hp H. exact (proj1 (proj2 (resume_post _ _ _ _ _ Hp H))). Qed.
+
+(* ---- closed forms for props/C02.v ---------------------------------------------------------------------------------------------- *)
+
+(* (3) *)
+Lemma any_restart_subset_full : forall a tmo t f batch rs bs,
+  run_history_v a tmo t f batch (with_pattern bs rs) = run_history_v a tmo t f batch (never rs).
+Proof.
+  intros a tmo. apply (any_restart_subset a tmo post_inv).
+  - exact post_inv_persistable.
+  - exact (start_post_inv a).
+  - exact (resume_post_inv a tmo).
+  - exact (start_post_trigger a).
+  - exact (resume_post_trigger a tmo).
+Qed.
+
+(* the Go sessions a host can hold: made by NewSession, advanced by Resume (accepted or rejected), re-read *)
+Inductive reachable (a : assets) (tmo : text) : live -> Prop :=
+| reach_start : forall t f batch x,
+    start a t f = ROk x ->
+    reachable a tmo {| lv_core := session_ x; lv_batch_trigger := batch; lv_tr := transient_at_start t batch |}
+| reach_resume : forall lv r lv',
+    reachable a tmo lv ->
+    after_call lv (fst (live_resume a lv r tmo)) (snd (live_resume a lv r tmo)) = Some lv' ->
+    reachable a tmo lv'
+| reach_reread : forall lv lv',
+    reachable a tmo lv -> restore (persist lv) = Restored lv' -> reachable a tmo lv'.
+
+Lemma reachable_ok : forall a tmo lv,
+  reachable a tmo lv -> post_inv (lv_core lv) /\ tr_ok (s_trigger (lv_core lv)) (lv_tr lv).
+Proof.
+  intros a tmo lv H. induction H as [t f batch x E | lv r lv' H [IHp IHt] E | lv lv' H [IHp IHt] E].
+  - cbn [lv_core lv_tr]. split; [exact (start_post_inv _ _ _ _ E)|].
+    rewrite (start_post_trigger _ _ _ _ E). apply tr_ok_start.
+  - unfold live_resume in E. cbn [fst snd] in E.
+    destruct (resume_session a (lv_core lv) r tmo) as [code|[x|x| |]] eqn:R; cbn [after_call] in E; try discriminate;
+    inversion E; subst lv'; cbn [lv_core lv_tr].
+    + split; [exact IHp | apply tr_ok_resume; exact IHt].
+    + split; [exact (resume_post_inv _ _ _ _ _ IHp R)|].
+      rewrite (resume_post_trigger _ _ _ _ _ IHp R). apply tr_ok_resume. exact IHt.
+  - destruct (post_inv_persistable _ IHp) as [Hpu Hpp].
+    rewrite (restore_persist_known _ Hpp) in E. inversion E. subst lv'. unfold reread. cbn [lv_core lv_tr].
+    assert (set_pushed (lv_core lv) None = lv_core lv) as Eq.
+    { destruct (lv_core lv) as [st ty tg fl rs inp pu]. unfold set_pushed. cbn in *. subst pu. reflexivity. }
+    rewrite Eq. split; [exact IHp | apply tr_ok_read].
+Qed.
+
+(* (2) for every reachable session and every resume *)
+Lemma resume_bisim_full : forall a tmo lv r, reachable a tmo lv ->
   exists lv', restore (persist lv) = Restored lv' /\
+    lv_core lv' = lv_core lv /\
     fst (live_resume a lv' r tmo) = fst (live_resume a lv r tmo) /\
     outcome_of (lv_batch_trigger lv') (fst (live_resume a lv' r tmo)) (snd (live_resume a lv' r tmo))
       = outcome_of (lv_batch_trigger lv) (fst (live_resume a lv r tmo)) (snd (live_resume a lv r tmo)) /\
     context_in_resume a (lv_core lv') (lv_tr lv') r = context_in_resume a (lv_core lv) (lv_tr lv) r.
 Proof.
-  intros a tmo [H1 [H2 [H3 H4]]] lv r Hp Ht.
-  destruct (sim_restore lv Hp Ht) as [lv' [E S]]. exists lv'. split; [exact E|].
-  pose proof (sim_step a tmo H2 H4 lv lv' r S) as Hs.
+  intros a tmo lv r H. destruct (reachable_ok _ _ _ H) as [Hp Ht].
+  destruct (sim_restore post_inv post_inv_persistable lv Hp Ht) as [lv' [E S]]. exists lv'. split; [exact E|].
+  pose proof (sim_step a tmo post_inv (resume_post_inv a tmo) (resume_post_trigger a tmo) lv lv' r S) as Hs.
+  destruct S as [Hc _].
   destruct (live_resume a lv r tmo) as [res1 tr1]. destruct (live_resume a lv' r tmo) as [res2 tr2].
-  destruct Hs as [Hr [Ho [Hc _]]]. cbn [fst snd]. repeat split; symmetry; assumption.
+  destruct Hs as [Hr [Ho [Hx _]]]. cbn [fst snd]. repeat split; symmetry; assumption.
 Qed.
 
 (* the statements are not vacuous: a two-flow session (parent waiting inside a child) is persistable, is read back,
@@ -461,6 +506,12 @@ Example ex_session_is_waiting_in_child :
   | None => False
   end.
 Proof. vm_compute. repeat split; reflexivity. Qed.
+
+Example ex_live_reachable : match ex_live with Some lv => reachable ex_assets [84%N] lv | None => False end.
+Proof.
+  unfold ex_live. destruct (start ex_assets TManual 1%N) as [x|x| |] eqn:E; try (vm_compute in E; discriminate).
+  apply (reach_start ex_assets [84%N] TManual 1%N true x E).
+Qed.
 
 Example ex_reread_and_resume :
   match ex_live with
